@@ -325,6 +325,14 @@ func genLayoutPairs(rng *gen.Rng, seqLen, seqSample, trees int, emit func(Case))
 	}
 }
 
+// specC14: customising one driver instance must not change any other instance, the package-level driver or driver.Shared.
+func specC14(c *Case, ps []*Probe) []string {
+	if c.Kind == "isolation" && len(ps) > 0 && ps[0].Lex != nil {
+		return ps[0].Lex.Fails
+	}
+	return nil
+}
+
 // specC15: the clauses of C15 judged on the implementation with tracing maps, against the obvious catamorphism.
 func specC15(c *Case, ps []*Probe) []string {
 	if c.Kind == "isolation" && len(ps) > 0 && ps[0].Lex != nil {
@@ -369,6 +377,14 @@ func specC15(c *Case, ps []*Probe) []string {
 		if has && strings.HasPrefix(r, "ok:") {
 			out = append(out, "a failing render function did not make Render fail")
 		}
+	case "empty", "nil":
+		if strings.HasPrefix(r, "ok:") || strings.HasPrefix(rp, "ok:") {
+			out = append(out, "Render / RenderParam succeeded although the driver registers no function at all")
+		}
+	case "only":
+		if e != nil && e.Op != expr.Operator(arg) && strings.HasPrefix(r, "ok:") {
+			out = append(out, "an operator without a registered function did not make Render fail (single-entry map)")
+		}
 	case "override":
 		if !has && len(ps) >= 3 && r != ps[2].Impl["R"] {
 			out = append(out, "overriding the function of an operator that does not occur changed the output")
@@ -391,9 +407,13 @@ func genRenderCases(rng *gen.Rng, count int, emit func(Case)) {
 	for i := 0; i < count; i++ {
 		var desc string
 		op := rng.Intn(20)
-		switch rng.Intn(8) {
+		switch rng.Intn(10) {
 		case 0, 1, 2:
 			desc = "trace"
+		case 8:
+			desc = gen.Pick(rng, []string{"empty", "nil"})
+		case 9:
+			desc = "only:" + strconv.Itoa(op)
 		case 3:
 			desc = "trace-minus:" + strconv.Itoa(op)
 		case 4:
@@ -977,6 +997,19 @@ func init() {
 		}
 		genEmbedded(rng, tiered(cfg, 60000, 1500000), gen.DefaultFields, e)
 		genOffPath(rng, tiered(cfg, 30000, 600000), gen.DefaultFields, e)
+		// size thresholds (implementation only): value lists and conjunctions with 2^12, 2^15, 2^16 values and one either side
+		for i, n := range []int{4095, 4096, 4097, 32767, 32768, 65535, 65536, 65537} {
+			var sb strings.Builder
+			sb.WriteString("a:(")
+			for k := 0; k < n; k++ {
+				if k > 0 {
+					sb.WriteString(" OR ")
+				}
+				sb.WriteString(strconv.Itoa(k))
+			}
+			sb.WriteString(")")
+			emit(Case{Gen: "G6-hugelist", Kind: "qimpl", S: sb.String(), Idx: i})
+		}
 	}})
 	add(&Property{ID: "C02", Fields: fields("P", "PG", "PP"), Spec: specFromProbes(""), Generate: func(cfg RunConfig, emit func(Case)) {
 		rng := gen.NewRng(cfg.Seed, 2)
@@ -1022,9 +1055,10 @@ func init() {
 		genDfPairs(rng, tiered(cfg, 3, 4), tiered(cfg, 60000, 1500000), tiered(cfg, 80000, 1500000), emit)
 		genOffPath(rng, tiered(cfg, 30000, 600000), dfNames, asKind("dfpair", emit))
 	}})
-	add(&Property{ID: "C14", Fields: fields("P", "S", "G", "PG", "PP", "J"), Spec: noSpec, Generate: func(cfg RunConfig, emit func(Case)) {
+	add(&Property{ID: "C14", Fields: fields("P", "S", "G", "PG", "PP", "J"), Spec: specC14, Generate: func(cfg RunConfig, emit func(Case)) {
 		// the sequential baseline of the session check is what is tied to the model here
 		rng := gen.NewRng(cfg.Seed, 14)
+		emit(Case{Gen: "isolation", Kind: "isolation", S: "a:b"})
 		genTrees(rng, tiered(cfg, 40000, 600000), 4, func(c Case) { c.Want = ""; c.Kind = "q"; c.DF = gen.Pick(rng, []string{"", "", "", "df"}); emit(c) })
 		for i := 0; i < tiered(cfg, 20000, 300000); i++ {
 			emit(Case{Gen: "G4-fieldquery", Kind: "q", S: gen.FieldQuery(rng), DF: gen.Pick(rng, []string{"", "df"}), Idx: i})
